@@ -40,6 +40,9 @@ func genGrp(r *Rng, tier string) *Enc {
 		} else if r.Chance(6) {
 			alpha = []any{"IT", "IT ", "HR", "HR ", " IT", "it"} // keys differing only in blanks or case are different keys
 		}
+		if r.Chance(6) {
+			alpha = []any{float32(0.1), float32(0.3), 0.1, 0.5, float32(0.5), 1.5, 0.30000001192092896} // float keys of both widths
+		}
 		if collide {
 			alpha = grpKeyAlpha
 		}
@@ -253,6 +256,22 @@ func genGrp(r *Rng, tier string) *Enc {
 		}
 	} else {
 		e.Int(0)
+	}
+	// … and the groups still hold the frame's own rows, cell for cell, after the aggregations have run
+	e.Tok("G2")
+	if status == "ok" {
+		e.Tok("NG")
+		e.Int(len(g.Groups))
+		e.Tok("KO")
+		e.Int(len(g.KeyOrder))
+		for _, k := range g.KeyOrder {
+			e.Cell(k)
+			rows := g.Groups[k]
+			e.Int(len(rows))
+			for _, row := range rows {
+				e.Row(row)
+			}
+		}
 	}
 	// (b) grouping again after an in-place edit of the frame must see the edit (no stale partition)
 	e.Tok("REGROUP")
